@@ -882,11 +882,54 @@ def rawbuild(ctx):
     BS = Sym(E, ba)
     maxes = [(b, t) for b, t in calls_named(ba, "max")]
     files = set()
-    for b, t in maxes:
-        txt = show(BS.operand(t["args"][1])) + show(BS.operand(t["args"][0]))
+    pushes = [(b, t) for b, t in calls_named(ba, "push") if len(t["args"]) >= 2]
+
+    def tags_of(op, depth=0):
+        """file tags of the rows whose length an operand may carry: directly
+        (len(parse_features(.., tag))) or through a container the rows were pushed into."""
+        out = set()
+        txt = show(BS.operand(op))
         for nm in ("bigram.right", "bigram.left"):
-            if nm in txt and "len(" in txt:
-                files.add(nm)
+            if nm in txt:
+                out.add(nm)
+        if depth > 6:
+            return out
+        pl = op_place(op)
+        for _ in range(20):
+            if pl is None:
+                break
+            d = ba.single_def(pl["l"])
+            if d is None:
+                # a container: what was pushed into it
+                for pb, pt in pushes:
+                    if table_var(ba, pt["args"][0]) == pl["l"]:
+                        out |= tags_of(pt["args"][1], depth + 1)
+                break
+            if d[2] == "call":
+                nm = (callee_of(d[3]) or {}).get("name")
+                if nm in ("chain", "zip") and len(d[3]["args"]) > 1:
+                    out |= tags_of(d[3]["args"][1], depth + 1)
+                if nm in ("new", "with_capacity", "from_elem"):
+                    for pb, pt in pushes:
+                        if table_var(ba, pt["args"][0]) == pl["l"]:
+                            out |= tags_of(pt["args"][1], depth + 1)
+                    break
+                if not d[3]["args"]:
+                    break
+                pl = op_place(d[3]["args"][0])
+                continue
+            rv = d[3]
+            if rv["k"] in ("use", "cast"):
+                pl = op_place(rv["op"])
+            elif rv["k"] in ("ref", "rawptr"):
+                pl = rv["place"]
+            else:
+                break
+        return out
+
+    for b, t in maxes:
+        for a in t["args"]:
+            files |= tags_of(a)
     ok = files == {"bigram.right", "bigram.left"}
     ctx.ob("FTSMAX", "RawConnectorBuilder::from_readers|width-is-max-over-both-files", ok, fn_loc(crate, bp),
            "the row width is the maximum row length over bigram.right and bigram.left" if ok else
